@@ -183,7 +183,7 @@ fn test(c: &Case, st: &mut Stats) -> TestResult {
         .map(|i| refattrs::lib_construct(POOL_KINDS[i % POOL_KINDS.len()], &pool_fields(i % POOL_KINDS.len(), (i / POOL_KINDS.len()) as u64 * 7 + 1), TID).unwrap())
         .collect();
     let raw_values: Vec<Vec<u8>> = (0..c.ops.len()).map(|i| match &c.ops[i] {
-        Op::AddRaw { len, .. } | Op::AddDupRaw { len, .. } => fill_bytes((*len % 764) as usize, i as u64 + 3, 0),
+        Op::AddRaw { len, .. } | Op::AddDupRaw { len, .. } => fill_bytes((*len % 9001) as usize, i as u64 + 3, 0),
         _ => vec![],
     }).collect();
     let lc = c.creds.to_lib();
@@ -424,7 +424,11 @@ fn all_sequences(max_len: usize) -> Vec<Case> {
 fn op_strategy() -> BoxedStrategy<Op> {
     prop_oneof![
         4 => (0u8..12).prop_map(|slot| Op::AddTyped { slot }),
-        3 => (prop_oneof![gen::unknown_type(), (0usize..16).prop_map(|i| gen::NON_TAIL_KINDS[i].code())], gen::raw_len().prop_map(|l| l as u16))
+        3 => (
+            prop_oneof![gen::unknown_type(), (0usize..16).prop_map(|i| gen::NON_TAIL_KINDS[i].code())],
+            // mostly small values; sometimes a few kilobytes, so that sealing happens on messages of every size class
+            prop_oneof![12 => gen::raw_len().prop_map(|l| l as u16), 1 => 1000u16..=9000, 1 => prop_oneof![Just(1000u16), Just(2030), Just(4070), Just(4090), Just(8170)]],
+        )
             .prop_map(|(ty, len)| Op::AddRaw { ty, len }),
         2 => any::<u8>().prop_map(|nth| Op::AddDupTyped { nth }),
         2 => (any::<u8>(), 0u16..12).prop_map(|(nth, len)| Op::AddDupRaw { nth, len }),
